@@ -1,17 +1,21 @@
 #!/usr/bin/env python3
 """Re-runs, for every seeded change, the quick check of the property it breaks (in a scratch copy via tools/mutant.py)
 and writes seeded/RECHECK.json: {seed: exit code of its own check}. 1 = caught, 0 = missed, 2 = harness error.
-usage: seed_recheck.py [seed ...]"""
+usage: seed_recheck.py [--seed N] [seed ...]   (N = VERIF_SEED of the check runs, default 1; output RECHECK_seedN.json)"""
 import json, os, re, subprocess, sys
 VERIF = os.path.dirname(os.path.dirname(os.path.abspath(__file__)))
 seeds = sorted(d for d in os.listdir(os.path.join(VERIF, "seeded")) if os.path.isdir(os.path.join(VERIF, "seeded", d)))
-only = sys.argv[1:] or seeds
+argv = sys.argv[1:]
+vseed = "1"
+if argv[:1] == ["--seed"]:
+    vseed, argv = argv[1], argv[2:]
+only = argv or seeds
 out = {}
-path = os.path.join(VERIF, "seeded", "RECHECK.json")
+path = os.path.join(VERIF, "seeded", f"RECHECK_seed{vseed}.json")
 for s in only:
     meta = json.load(open(os.path.join(VERIF, "seeded", s, "meta.json")))
     pid = meta.get("breaks_property") or meta.get("property")
-    p = subprocess.run([sys.executable, os.path.join(VERIF, "tools", "mutant.py"), "--patch", os.path.join(VERIF, "seeded", s, "patch.diff"), "--", pid],
+    p = subprocess.run([sys.executable, os.path.join(VERIF, "tools", "mutant.py"), "--seed", vseed, "--patch", os.path.join(VERIF, "seeded", s, "patch.diff"), "--", pid],
                        capture_output=True, text=True)
     m = re.search(r"^%s: exit=(\d)" % pid, p.stdout, re.M)
     out[s] = int(m.group(1)) if m else -1
